@@ -205,7 +205,8 @@ class C14:
             else:
                 fsplan['faults'].append({'kind': fk, 'at': {'byte': frng.randint(0, 120)}, 'sticky': fk == 'enospc_write', 'path': target})
         return {'property': self.PROPERTY, 'config': 'fault_injecting' if faulty else 'fault_free', 'doc': doc.to_json(), 'damage': damage,
-                'others': others, 'ops': ops, 'fs': fsplan, 'reuse_argument_objects': erng.random() < 0.4, 'defer_reference': erng.random() < 0.4}
+                'others': others, 'ops': ops, 'fs': fsplan, 'reuse_argument_objects': erng.random() < 0.4, 'defer_reference': erng.random() < 0.4,
+                'logging': 'DEBUG' if erng.random() < 0.08 else 'default'}
 
     def summarize(self, plan):
         return {'config': plan['config'], 'text': self._text(plan), 'ops': plan['ops'], 'fs_faults': plan['fs'].get('faults')}
@@ -218,6 +219,11 @@ class C14:
 
     # ================================================================ execution
     def execute(self, plan):
+        from simkit.envknobs import debug_logging
+        with debug_logging(plan.get('logging') == 'DEBUG'):     # interpreter-environment knob: the application logs at DEBUG
+            return self._execute(plan)
+
+    def _execute(self, plan):
         import kernpy as kp
         from kernpy.core import createImporter
         log = EventLog()
